@@ -281,29 +281,33 @@ func (multiSource *MultiSource) processDependency(ctx context.Context, dep Depen
 							return
 						}
 						if len(changes.Entities) > 0 {
-							timestamp := int64(changes.Entities[0].Recorded)
-							// create a copy of relatedFrom with back-dated timestamp
-							prevRelatedFrom := relatedFrom
-							prevRelatedFrom.At = timestamp
-						repeatPrevQuery:
-							if ctx.Err() != nil {
-								errChan <- ctx.Err()
-								return
+							// All entities of one write batch carry the same recorded time. If the previous page ended inside
+							// a batch, "as of that time" already contains the rest of the batch (i.e. the changes of this page),
+							// so the state before the batch has to be asked for as well.
+							for _, timestamp := range []int64{int64(changes.Entities[0].Recorded), int64(changes.Entities[0].Recorded) - 1} {
+								// create a copy of relatedFrom with back-dated timestamp
+								backDated := *relatedFrom
+								prevRelatedFrom := &backDated
+								prevRelatedFrom.At = timestamp
+							repeatPrevQuery:
+								if ctx.Err() != nil {
+									errChan <- ctx.Err()
+									return
+								}
+								// same query paging logic as lines 213-227, just different point in time. duplicates may be put onto channel here
+								prevRelatedEntities, c, err6 := multiSource.Store.GetRelatedAtTime(prevRelatedFrom, batchSize)
+								if err6 != nil {
+									errChan <- fmt.Errorf("previous GetRelatedAtTime failed for Join %+v at timestamp %v, %w", join, timestamp, err6)
+									return
+								}
+								for _, r := range prevRelatedEntities {
+									joinLvlChan <- r.EntityID
+								}
+								if c != nil {
+									prevRelatedFrom = c
+									goto repeatPrevQuery
+								}
 							}
-							// same query paging logic as lines 213-227, just different point in time. duplicates may be put onto channel here
-							prevRelatedEntities, c, err6 := multiSource.Store.GetRelatedAtTime(prevRelatedFrom, batchSize)
-							if err6 != nil {
-								errChan <- fmt.Errorf("previous GetRelatedAtTime failed for Join %+v at timestamp %v, %w", join, timestamp, err6)
-								return
-							}
-							for _, r := range prevRelatedEntities {
-								joinLvlChan <- r.EntityID
-							}
-							if c != nil {
-								prevRelatedFrom = c
-								goto repeatPrevQuery
-							}
-
 						}
 					}
 				}
